@@ -12,7 +12,7 @@ use serde_json::{json, Value};
 use std::io::Cursor;
 
 pub fn fmovie_json(m: &LFragMovie) -> Value {
-    json!({"movie_ts": m.movie_ts, "mehd": m.mehd, "large_moof": m.large_moof,
+    json!({"movie_ts": m.movie_ts, "mehd": m.mehd, "large_moof": m.large_moof, "fillers": m.fillers,
         "tracks": m.tracks.iter().map(|t| json!({"id": t.id, "codec": format!("{:?}", t.codec), "timescale": t.timescale, "trex_default_duration": t.trex_default_duration})).collect::<Vec<_>>(),
         "fragments": m.fragments.iter().map(|f| f.iter().map(|r| json!({"track": r.track_id, "base": format!("{:?}", r.base), "frag_default_duration": r.frag_default_duration,
             "per_sample_durations": r.per_sample_durations, "cts_version": r.cts_version, "data_offset": r.data_offset, "data_before_moof": r.data_before_moof,
@@ -330,6 +330,7 @@ pub fn run(tier: Tier, seed: u64) -> i32 {
                 mehd: if *trex == 0 { None } else { Some(0) },
                 large_moof: *large,
                 offsets_only: false,
+                fillers: 0,
             };
             judge("C09", "1:uniform_options", &m, l);
         });
@@ -348,7 +349,7 @@ pub fn run(tier: Tier, seed: u64) -> i32 {
     }
     let f2 = items.len() as u64;
     par(items, &mut l, |(a, b), l| {
-        let m = LFragMovie { movie_ts: 600, tracks: vec![LFragTrack { id: 1, codec: Codec::Aac, timescale: 48000, trex_default_duration: 9 }], fragments: vec![vec![mk_run(1, a, 2, 0)], vec![mk_run(1, b, 2, 1)]], mehd: Some(1), large_moof: false, offsets_only: false };
+        let m = LFragMovie { movie_ts: 600, tracks: vec![LFragTrack { id: 1, codec: Codec::Aac, timescale: 48000, trex_default_duration: 9 }], fragments: vec![vec![mk_run(1, a, 2, 0)], vec![mk_run(1, b, 2, 1)]], mehd: Some(1), large_moof: false, offsets_only: false, fillers: 0 };
         judge("C09", "2:option_pairs", &m, l);
     });
     fams.push(json!({"family": "2: one track, two fragments, option tuples chosen independently (all pairs in thorough; the (i+j) mod 3 = 0 third in quick — a complete enumeration of that sub-lattice, not a sample)", "movies": f2}));
@@ -390,6 +391,7 @@ pub fn run(tier: Tier, seed: u64) -> i32 {
             mehd: None,
             large_moof: false,
                 offsets_only: false,
+                fillers: 0,
         };
         judge("C09", "3:two_tracks", &m, l);
     });
@@ -417,10 +419,36 @@ pub fn run(tier: Tier, seed: u64) -> i32 {
             s.size = *z;
         }
         let r1 = mk_run(1, o, 2, 1);
-        let m = LFragMovie { movie_ts: 1000, tracks: vec![LFragTrack { id: 1, codec: Codec::Avc, timescale: 12800, trex_default_duration: 9 }], fragments: vec![vec![r0], vec![r1]], mehd: None, large_moof: false, offsets_only: true };
+        let m = LFragMovie { movie_ts: 1000, tracks: vec![LFragTrack { id: 1, codec: Codec::Avc, timescale: 12800, trex_default_duration: 9 }], fragments: vec![vec![r0], vec![r1]], mehd: None, large_moof: false, offsets_only: true, fillers: 0 };
         judge("C09", "4:sizes_summing_past_4GiB", &m, l);
     });
     fams.push(json!({"family": "4: one run with sizes in {0x90000000, 1, 0xffffffff}^N followed by a second fragment; 32 base/data-offset/default/placement tuples; sample_count and sample_offset only (payload not materialised)", "n_max": n4, "movies": f4}));
+
+    // Family 5: uninterpreted boxes (uuid, free) among the fragment boxes: in the traf before the run / at its end, in the
+    // moof before the trafs, at the top level between fragments; every non-empty subset of the four places
+    let small5: Vec<Opt> = opts.iter().filter(|o| o.tfdt_v == 1 && o.base_time == 5 && o.cts != Some(0)).cloned().collect();
+    let mut items = vec![];
+    for fillers in 1u8..16 {
+        for o in small5.iter() {
+            for large in [false, true] {
+                items.push((fillers, *o, large));
+            }
+        }
+    }
+    let f5 = items.len() as u64;
+    par(items, &mut l, |(fillers, o, large), l| {
+        let m = LFragMovie {
+            movie_ts: 1000,
+            tracks: vec![LFragTrack { id: 1, codec: Codec::Avc, timescale: 12800, trex_default_duration: 9 }, LFragTrack { id: 2, codec: Codec::Aac, timescale: 48000, trex_default_duration: 9 }],
+            fragments: vec![vec![mk_run(1, o, 2, 0), mk_run(2, o, 1, 1)], vec![mk_run(2, o, 2, 2)], vec![mk_run(1, o, 1, 3), mk_run(2, o, NO_TRUN, 4)]],
+            mehd: None,
+            large_moof: *large,
+            offsets_only: false,
+            fillers: *fillers,
+        };
+        judge("C09", "5:uninterpreted_boxes_among_fragment_boxes", &m, l);
+    });
+    fams.push(json!({"family": "5: two tracks, three fragments; uuid / free boxes in the traf before the run, at the end of the traf, in the moof before the trafs, at the top level behind each fragment (15 non-empty subsets) x option tuples x 32/64-bit moof header", "movies": f5}));
 
     ev.set("evaluations", json!(l.evaluations));
     ev.set("states", json!(l.evaluations));
